@@ -2,7 +2,7 @@ HOOKS = {
     "guard": "LIBLCB_VERIF",
     "enable": "-DLIBLCB_VERIF when compiling src/threadpool/*.c for the thread-pool harness (no other check needs source hooks)",
     "baseline_off_cmd": "cmake -G Ninja -S /repo -B /repo/_build -DENABLE_LIBLCB_TESTS=1 && cmake --build /repo/_build && ctest --test-dir /repo/_build -j8 --timeout 900",
-    "source_commits": [],
+    "source_commits": ["b70da2c"],
     "add_only": True,
 }
 ENGINES_SERVE = {}
